@@ -39,7 +39,8 @@ class C16(Prop):
             "risk-adjusted rows against the metric called with the tearsheet's own risk-free series; in half of them with a "
             "`prices=` frame whose 'CAGR <asset>' rows are checked and whose invalid columns must be rejected); a quarter of the "
             "cases pass the series as one column of a two-column DataFrame (either position; a value corruption may sit in "
-            "the other column only); a fifth use a timezone-aware index")
+            "the other column only); a fifth use a timezone-aware index; 12% are idle accounts (flat on most days, halving or doubling on a few: exactly "
+            "equal returns across the quantile position)")
     nontrivial_tags = {"dataframe", "tearsheet-long-history", "intraday", "corrupted", "benchmark", "long"}
     assumptions = [
         "sqrt, log and ** are leaves (C library in both the executed model and the implementation), 1e-9 relative",
@@ -75,6 +76,18 @@ class C16(Prop):
             if crash_at is not None and crash_at <= i < crash_at + 4:
                 v *= 0.8
             vals.append(fr(F(v)))
+        if rng.random() < 0.12 and not long_history and not intraday:
+            # an idle account: the level is flat on most days (returns of exactly 0.0) and halves or doubles on a few,
+            # so that several *equal* returns sit across the quantile position (all values are powers of two: exact)
+            n = rng.choice([41, 60, 101])
+            times = [T0 + i * DAY for i in range(n)]
+            v, vals = 2.0 ** rng.randint(8, 12), []
+            for i in range(n):
+                u = rng.random()
+                v = v * (0.5 if u < 0.06 else 2.0 if u < 0.10 else 1.0)
+                vals.append(fr(F(v)))
+            if all(x == vals[0] for x in vals):
+                vals[n // 2:] = [fr(F(float(Fraction(vals[0]) / 2)))] * (n - n // 2)
         bench = None
         if rng.random() < 0.4:
             b = rng.uniform(0.5, 500)
